@@ -1,7 +1,7 @@
 (* Interleaving model of dispenso::MpmcRingBuffer (dispenso/mpmc_ring_buffer.h, Vyukov-style bounded queue with
    fail-fast single-attempt CAS) at the granularity of the DISPENSO_VERIF_POINT hooks: one step = one atomic access
    (tail_/head_ load or compare_exchange_strong, slot.seq load/store) or one slot payload access (placement-new of the
-   pushed element; move-out + destructor of the popped element).  Any number of threads, each running a script of
+   pushed element; move-out of the popped element; its destructor call -- each its own step).  Any number of threads, each running a script of
    operations; any thread may push and pop.  Arithmetic is size_t (wrap 64) / intptr_t (wrap_s 64) as written.
    Ghost state (never read by the code paths): per slot the phase of the position it currently serves and its owner
    thread; per position the pusher and the value (gpush); the positions whose pop completed (gpopped).
@@ -23,7 +23,8 @@ Inductive op :=
 Inductive pc :=
 | PStart
 | PPushLoadTail (v : Z) | PPushLoadSeq (v t0 : Z) | PPushCas (v t0 : Z) | PPushWrite (v t0 : Z) | PPushStoreSeq (v t0 : Z)
-| PPopLoadHead | PPopLoadTail (h0 : Z) | PPopLoadSeq (h0 : Z) | PPopCas (h0 : Z) | PPopRead (h0 : Z) | PPopStoreSeq (h0 v : Z)
+| PPopLoadHead | PPopLoadTail (h0 : Z) | PPopLoadSeq (h0 : Z) | PPopCas (h0 : Z) | PPopRead (h0 : Z) | PPopDestroy (h0 v : Z)
+| PPopStoreSeq (h0 v : Z)
 | PBLoadTail (vs : list Z)
 | PBLoadSeq (vs : list Z) (t0 i : Z)          (* validation loop, at the hook before the seq load of slot tail+i *)
 | PBCas (vs : list Z) (t0 avail : Z)
@@ -39,8 +40,8 @@ Inductive phase :=
 | Claimed (t : nat)    (* thread t won the tail CAS for it; payload not yet constructed *)
 | Written (t : nat)    (* payload constructed by t; sequence not yet published *)
 | Full                 (* published *)
-| Taking (t : nat)     (* thread t won the head CAS for it; payload not yet moved out *)
-| Taken (t : nat).     (* payload moved out and destroyed by t; slot not yet released *)
+| Taking (t : nat) (moved : bool)   (* thread t won the head CAS for it; moved = payload already moved out (not yet destroyed) *)
+| Taken (t : nat).     (* payload destroyed by t; slot not yet released *)
 
 Record slot := SL { seq : Z; val : Z; ph : phase }.
 
@@ -61,6 +62,7 @@ Definition s_pop_head_load := 6. Definition s_pop_tail_load := 7. Definition s_p
 Definition s_pop_data_read := 10. Definition s_pop_seq_store := 11.
 Definition s_pushb_tail_load := 12. Definition s_pushb_seq_load := 13. Definition s_pushb_tail_cas := 14.
 Definition s_pushb_data_write := 15. Definition s_pushb_seq_store := 16.
+Definition s_pop_data_destroy := 17.
 
 (* result tags (same numbering as Model/SpscModel.v) *)
 Definition r_push := 1.      (* (r_push, v): element v was accepted (single push, or one element of a batch) *)
@@ -148,13 +150,17 @@ Definition step (s : state) (t : nat) (ch : list Z) : option (state * list Z * Z
       | PPopCas h0 =>
           if head s =? h0 then
             let i := ring_wrap n h0 in
-            mk (u64 (h0 + 1)) (tail s) (fupd (slots s) i (with_ph (slots s i) (Taking t))) (led s) (goto th (PPopRead h0))
+            mk (u64 (h0 + 1)) (tail s) (fupd (slots s) i (with_ph (slots s i) (Taking t false))) (led s) (goto th (PPopRead h0))
                (gpush s) (gpopped s) s_pop_head_cas
           else same (next (logr th r_popfail 0)) s_pop_head_cas
       | PPopRead h0 =>
           let i := ring_wrap n h0 in
-          mk (head s) (tail s) (fupd (slots s) i (with_ph (slots s i) (Taken t))) (destroy i (move_from i (led s)))
-             (goto th (PPopStoreSeq h0 (val (slots s i)))) (gpush s) (gpopped s) s_pop_data_read
+          mk (head s) (tail s) (fupd (slots s) i (with_ph (slots s i) (Taking t true))) (move_from i (led s))
+             (goto th (PPopDestroy h0 (val (slots s i)))) (gpush s) (gpopped s) s_pop_data_read
+      | PPopDestroy h0 v =>
+          let i := ring_wrap n h0 in
+          mk (head s) (tail s) (fupd (slots s) i (with_ph (slots s i) (Taken t))) (destroy i (led s))
+             (goto th (PPopStoreSeq h0 v)) (gpush s) (gpopped s) s_pop_data_destroy
       | PPopStoreSeq h0 v =>
           let i := ring_wrap n h0 in
           mk (head s) (tail s) (fupd (slots s) i (with_seq (slots s i) (u64 (h0 + n)) Free)) (led s)
